@@ -33,7 +33,10 @@ def main():
                 category="exploration",
                 text=getattr(mod, "LEVEL_TEXT", None) or (
                     f"Exploration by generated-input search (Hypothesis, seeded and sharded): {mod.BUDGET['quick']} cases in the quick tier, "
-                    f"{mod.BUDGET['thorough']} with shrinking in the thorough tier, each evaluated against an explicit oracle "
+                    f"{mod.BUDGET['thorough']} with shrinking in the thorough tier"
+                    + (f", plus {mod.BIG['quick']} / {mod.BIG['thorough']} deployment-scale cases (quick / thorough, never shrunk; sizes in DESIGN.md 1.9)"
+                       if getattr(mod, "BIG", None) else "")
+                    + ", each evaluated against an explicit oracle "
                     f"({getattr(mod, 'TECHNIQUE', 'reference model')}). A pass means no counter-example among the generated cases; it is not a proof. "
                     "This is the right level here because the property quantifies over unbounded inputs / configurations / call histories of "
                     "numpy-numba-scipy code for which an executable oracle exists, while symbolic or exhaustive methods cannot execute that code."),
@@ -51,7 +54,7 @@ def main():
                                      "sharded over processes, seeded by VERIF_SEED; shrunk failing case = replay file")],
         checks=checks,
         notes="All checks: ./check <ID> quick|thorough|replay <file>. Exit 0 held / 1 VIOLATION / 2 harness error. "
-              "Known findings: known_findings.txt (ten defects repaired by fix: commits, none outstanding).",
+              "Known findings: known_findings.txt (24 defects repaired by fix: commits, none outstanding).",
         not_applicable=na,
     )
     with open(os.path.join(VERIF, "MANIFEST.json"), "w") as f:
